@@ -176,8 +176,16 @@ func Flatten(opts FlattenOpts) error {
 	return nil
 }
 
-func expand(opts *FlattenOpts) error {
-	if err := spec.ExpandSpec(opts.Swagger(), opts.ExpandOpts(!opts.Expand)); err != nil {
+func expand(opts *FlattenOpts) (err error) {
+	defer func() {
+		// the expander panics on a $ref which resolves to a keyword its target does not have
+		// (e.g. "#/definitions/x/additionalProperties" when x is not a map): report, don't crash
+		if r := recover(); r != nil {
+			err = ErrResolveSchema(fmt.Errorf("%v", r))
+		}
+	}()
+
+	if err = spec.ExpandSpec(opts.Swagger(), opts.ExpandOpts(!opts.Expand)); err != nil {
 		return err
 	}
 
